@@ -50,13 +50,18 @@ var c20ItemLimits = []int{1, 1, 2, 3, 5, data_model.MaxJournalItemsSent}
 var c20ByteLimits = []int{data_model.MaxJournalBytesSent, data_model.MaxJournalBytesSent, 1, 300, 100_000}
 
 var c20BaseNames = []string{"a", "ab", "abc", "abd", "b", "ba", "c", "p:a", "p:ab", "q:a", "p:b", "q:ab"}
+
+// metric names additionally include the remote-config metrics, whose description compact journals must keep
+var c20RemoteConfigNames = []string{"statshouse_agent_remote_config", "statshouse_aggregator_remote_config", "statshouse_api_remote_config", "statshouse_journal_dump"}
+var c20MetricNames = append(append([]string{}, c20BaseNames...), c20RemoteConfigNames...)
 var c20NamespaceNames = []string{"p", "q"}
 var c20Kinds = []string{format.MetricKindCounter, format.MetricKindValue, format.MetricKindValuePercentiles, format.MetricKindMixedPercentiles}
 var c20BigSizes = []int{200_000, 290_000, 150_000}
 
 // content of an entity in the reference model (plain data, rendered to the JSON the API would store)
 type c20Content struct {
-	DescKind int // 0 none, 1 plain, 2 with a toggle mark (survives compaction), 3 big plain, 4 big with mark
+	DescKind int  // 0 none, 1 plain, 2 with a toggle mark (survives compaction), 3 big plain, 4 big with mark, 5 short with the other marker
+	Extra    bool // string top name/description, skip flags and a metric type are set
 	DescN    int
 	NTags    int
 	Raw      bool
@@ -105,6 +110,8 @@ func (c c20Content) description() string {
 		return fmt.Sprintf("d%d ", c.DescN) + strings.Repeat("x", c20BigSizes[c.DescN%len(c20BigSizes)])
 	case 4:
 		return fmt.Sprintf("d%d __whales_off ", c.DescN) + strings.Repeat("y", c20BigSizes[c.DescN%len(c20BigSizes)])
+	case 5:
+		return fmt.Sprintf("__round_sample_factors d%d", c.DescN)
 	}
 	return ""
 }
@@ -125,6 +132,11 @@ func (s *c20Source) render(t vpT, e *c20Ent) {
 			MetricID: int32(e.id), Name: e.name, NamespaceID: int32(e.nsID),
 			Description: e.c.description(), Disable: e.c.Disable, Kind: c20Kinds[e.c.Kind%len(c20Kinds)],
 			Weight: e.c.weight(), Resolution: e.c.Res,
+		}
+		if e.c.Extra {
+			v.StringTopName, v.StringTopDescription = "st", "string top"
+			v.SkipMaxHost, v.SkipMinHost, v.SkipSumSquare = true, true, true
+			v.MetricType = format.MetricByte
 		}
 		for i := 0; i < e.c.NTags; i++ {
 			tag := format.MetricMetaTag{}
@@ -282,8 +294,9 @@ type c20World struct {
 	maxBytes                                  int
 	last                                      []tlmetadata.Event
 	cls                                       map[string]bool
-	lastRen                                   map[int32]*c20Ent   // entity of each type renamed most recently
-	lim                                       [][2]int            // fixed per-replica limits (nil: every delivery brings its own)
+	lastRen                                   map[int32]*c20Ent // entity of each type renamed most recently
+	lim                                       [][2]int          // fixed per-replica limits (nil: every delivery brings its own)
+	lastCreated                               map[int32]*c20Ent
 	borrow                                    map[int32]c20Borrow // the most recent "name taken after another entity released it", per type
 	renameOntoFreed, truncReload, groupToggle bool
 }
@@ -580,6 +593,31 @@ func (w *c20World) reload(idx int, save bool, permille, cut int) {
 // 97 (as a name selector with F) = the borrowed name, 96 = the entity that took it, 95 = the one that released it
 const c20SelLastRenamed, c20SelOther, c20SelBorrowed, c20SelTaker, c20SelOwner = 99, 98, 97, 96, 95
 
+// 94 = the entity of this type created most recently
+const c20SelLastCreated = 94
+
+// ---- the compacted form, written from the comments of format.MakeCompactMetric / keepCompactMetricDescription:
+// the description survives exactly for the remote-config metrics and for descriptions carrying one of the
+// marker substrings; tag descriptions and value comments, string top description, pre-key and skip flags and
+// the metric type are dropped; kind survives only with percentiles; weight 1 and resolution 1 are defaults.
+
+func c20IsRemoteConfigName(name string) bool {
+	for _, n := range c20RemoteConfigNames {
+		if n == name {
+			return true
+		}
+	}
+	return false
+}
+
+func c20CompactDescription(name, description string) string {
+	if c20IsRemoteConfigName(name) || strings.Contains(description, "__round_sample_factors") ||
+		strings.Contains(description, "__whales_off") || strings.Contains(description, "statshouse$") {
+		return description
+	}
+	return ""
+}
+
 func (w *c20World) entOf(typ int32, sel int) *c20Ent {
 	l := w.src.list(typ)
 	if len(l) == 0 {
@@ -589,6 +627,9 @@ func (w *c20World) entOf(typ int32, sel int) *c20Ent {
 		return b.taker
 	} else if b.owner != nil && sel == c20SelOwner {
 		return b.owner
+	}
+	if lc := w.lastCreated[typ]; lc != nil && sel == c20SelLastCreated {
+		return lc
 	}
 	if lr := w.lastRen[typ]; lr != nil && sel == c20SelLastRenamed {
 		return lr
@@ -605,7 +646,7 @@ func (w *c20World) entOf(typ int32, sel int) *c20Ent {
 func (w *c20World) typOf(k byte) (int32, []string) {
 	switch k {
 	case 'm':
-		return format.MetricEvent, c20BaseNames
+		return format.MetricEvent, c20MetricNames
 	case 'g':
 		return format.MetricsGroupEvent, c20BaseNames
 	case 'n':
@@ -668,6 +709,7 @@ func (w *c20World) applySourceOp(op c20Op) {
 		prev, had := s.everHad[typ][name]
 		c := c20Content{NTags: 1 + op.B%3, Kind: op.B % len(c20Kinds), Weight: 1, Res: 1}
 		e := s.create(t, typ, name, nsID, 0, c)
+		w.lastCreated[typ] = e
 		if had && prev != 0 {
 			w.renameOntoFreed = true
 			w.class("rename-onto-freed")
@@ -680,9 +722,16 @@ func (w *c20World) applySourceOp(op c20Op) {
 		}
 		switch typ {
 		case format.MetricEvent:
-			switch op.B % 10 {
+			switch op.B % 12 {
+			case 10:
+				e.c.DescKind, e.c.DescN = 5, e.c.DescN+1
+			case 11:
+				e.c.Extra = !e.c.Extra
 			case 0:
 				e.c.DescKind, e.c.DescN = 1, e.c.DescN+1
+				if c20IsRemoteConfigName(e.name) {
+					w.class("remote-config-description-only-edit")
+				}
 			case 1:
 				e.c.NTags = e.c.NTags%4 + 1
 			case 2:
@@ -871,12 +920,46 @@ func (w *c20World) checkQuiescent() {
 				if m.Version > e.ev.Version {
 					t.Fatalf(where("metric %d version %d is newer than the source's %d", e.id, m.Version, e.ev.Version))
 				}
-				if keep := e.c.DescKind == 2 || e.c.DescKind == 4; keep && m.Description != e.c.description() {
-					t.Fatalf(where("metric %d %q: description with a toggle mark not kept by compaction", e.id, e.name))
+				wantDesc := c20CompactDescription(e.name, e.c.description())
+				if m.Description != wantDesc {
+					t.Fatalf(where("metric %d %q: description %.60q, the compacted form of the source's latest version has %.60q", e.id, e.name, m.Description, wantDesc))
+				}
+				wantKind, wantRes, wantTags, wantST := "", e.c.Res, nt, ""
+				if strings.HasSuffix(c20Kinds[e.c.Kind%len(c20Kinds)], "_p") {
+					wantKind = c20Kinds[e.c.Kind%len(c20Kinds)]
+				}
+				if wantRes == 1 {
+					wantRes = 0
+				}
+				if nt < 2 {
+					wantTags = 0 // a trailing tag without name and raw kind is cut
+				}
+				if e.c.Extra {
+					wantST = "st"
+				}
+				if m.Kind != wantKind || m.Resolution != wantRes || m.Weight != e.c.weight() || len(m.Tags) != wantTags || m.StringTopName != wantST ||
+					m.StringTopDescription != "" || m.SkipMaxHost || m.SkipMinHost || m.SkipSumSquare || m.MetricType != "" || m.PreKeyTagID != "" {
+					t.Fatalf(where("metric %d %q: compacted form differs: kind %q res %d weight %v tags %d string top %q/%q skips %v%v%v type %q, expected kind %q res %d weight %v tags %d string top %q",
+						e.id, e.name, m.Kind, m.Resolution, m.Weight, len(m.Tags), m.StringTopName, m.StringTopDescription, m.SkipMaxHost, m.SkipMinHost, m.SkipSumSquare, m.MetricType,
+						wantKind, wantRes, e.c.weight(), wantTags, wantST))
+				}
+				for i := 1; i < len(m.Tags); i++ {
+					if m.Tags[i].Description != "" || len(m.Tags[i].ValueComments) != 0 {
+						t.Fatalf(where("metric %d %q: tag %d keeps its description in the compacted form", e.id, e.name, i))
+					}
+				}
+				if c20IsRemoteConfigName(e.name) {
+					w.class("remote-config-metric")
+					if e.c.DescKind == 1 || e.c.DescKind == 3 {
+						w.class("remote-config-metric-description-without-marker")
+					}
+				} else if wantDesc != "" {
+					w.class("marker-description-on-ordinary-metric")
 				}
 			} else {
 				if m.Version != e.ev.Version || m.UpdateTime != e.ev.UpdateTime || m.Description != e.c.description() ||
-					m.Kind != c20Kinds[e.c.Kind%len(c20Kinds)] || len(m.Tags) != nt {
+					m.Kind != c20Kinds[e.c.Kind%len(c20Kinds)] || len(m.Tags) != nt ||
+					m.SkipMaxHost != e.c.Extra || m.SkipMinHost != e.c.Extra || m.SkipSumSquare != e.c.Extra || (m.MetricType != "") != e.c.Extra || (m.StringTopDescription != "") != e.c.Extra {
 					t.Fatalf(where("metric %d %q: got v%d t%d kind %q %d tags, source v%d t%d kind %q %d tags (or description differs)", e.id, e.name,
 						m.Version, m.UpdateTime, m.Kind, len(m.Tags), e.ev.Version, e.ev.UpdateTime, c20Kinds[e.c.Kind%len(c20Kinds)], nt))
 				}
@@ -905,7 +988,7 @@ func (w *c20World) checkQuiescent() {
 		if nByID != len(metrics) || nByName != len(metrics) {
 			t.Fatalf(where("%d metrics by id, %d by name, source has %d", nByID, nByName, len(metrics)))
 		}
-		for _, n := range c20BaseNames {
+		for _, n := range c20MetricNames {
 			if s.byName[format.MetricEvent][n] == nil && ms.GetMetaMetricByName(n) != nil {
 				t.Fatalf(where("name %q is held by no metric but a lookup returns metric %d", n, ms.GetMetaMetricByName(n).MetricID))
 			}
@@ -987,7 +1070,7 @@ var c20ReplicaDefs = []struct {
 }
 
 func c20Prop(t vpT, c c20Case) (nontrivial bool, classes []string) {
-	w := &c20World{t: t, src: c20NewSource(), files: c.Files, cls: map[string]bool{}, lastRen: map[int32]*c20Ent{}, borrow: map[int32]c20Borrow{}}
+	w := &c20World{t: t, src: c20NewSource(), files: c.Files, cls: map[string]bool{}, lastRen: map[int32]*c20Ent{}, lastCreated: map[int32]*c20Ent{}, borrow: map[int32]c20Borrow{}}
 	if c.Files {
 		dir, err := os.MkdirTemp("", "vp-c20-")
 		if err != nil {
@@ -1069,13 +1152,15 @@ func c20GenOp() *rapid.Generator[c20Op] {
 			op.A = rapid.IntRange(0, 5).Draw(t, "ent")
 			if rapid.IntRange(0, 39).Draw(t, "big") == 0 {
 				op.B = rapid.IntRange(8, 9).Draw(t, "what")
+			} else if rapid.IntRange(0, 7).Draw(t, "more") == 0 {
+				op.B = rapid.IntRange(10, 11).Draw(t, "what")
 			} else {
 				op.B = rapid.IntRange(0, 7).Draw(t, "what")
 			}
 			op.C = rapid.IntRange(0, 2).Draw(t, "arg")
 		default:
-			op.A = rapid.IntRange(0, 11).Draw(t, "a")
-			op.B = rapid.IntRange(0, 11).Draw(t, "b")
+			op.A = rapid.IntRange(0, 15).Draw(t, "a")
+			op.B = rapid.IntRange(0, 15).Draw(t, "b")
 			op.F = rapid.IntRange(0, 2).Draw(t, "freed") != 0
 		}
 		return op
@@ -1092,7 +1177,7 @@ func c20GenDelivery(t *rapid.T) c20Op {
 // a journal grown over one chunk and cut, a restart followed by catching up.
 func c20GenSegment() *rapid.Generator[[]c20Op] {
 	return rapid.Custom(func(t *rapid.T) []c20Op {
-		switch rapid.SampledFrom([]string{"op", "op", "op", "op", "op", "op", "op", "op", "dance", "dance", "borrow", "groups", "big", "restart"}).Draw(t, "segment") {
+		switch rapid.SampledFrom([]string{"op", "op", "op", "op", "op", "op", "op", "op", "dance", "dance", "borrow", "groups", "big", "restart", "remote"}).Draw(t, "segment") {
 		case "dance":
 			ty := rapid.SampledFrom([]string{"m", "m", "g"}).Draw(t, "type")
 			var ops []c20Op
@@ -1160,6 +1245,21 @@ func c20GenSegment() *rapid.Generator[[]c20Op] {
 			ops = append(ops, c20Op{K: "r" + ty, A: c20SelOwner, B: c20SelBorrowed, F: true})
 			for n := rapid.IntRange(0, 2).Draw(t, "post"); n > 0; n-- {
 				ops = append(ops, c20GenDelivery(t))
+			}
+			return ops
+		case "remote": // a remote-config metric: its (plain) description is the payload, edits of it must reach every replica
+			ops := []c20Op{{K: "cm", A: 12 + rapid.IntRange(0, 3).Draw(t, "which"), B: rapid.IntRange(0, 11).Draw(t, "content")}}
+			for n := rapid.IntRange(1, 4).Draw(t, "edits"); n > 0; n-- {
+				ops = append(ops, c20Op{K: "em", A: c20SelLastCreated, B: rapid.SampledFrom([]int{0, 0, 0, 7, 10, 11, 3}).Draw(t, "what")})
+				for d := rapid.IntRange(0, 2).Draw(t, "deliveries"); d > 0; d-- {
+					ops = append(ops, c20GenDelivery(t))
+				}
+				if rapid.IntRange(0, 3).Draw(t, "sync") == 0 {
+					ops = append(ops, c20Op{K: "qq"})
+				}
+			}
+			if rapid.IntRange(0, 3).Draw(t, "rename") == 0 { // to or from an ordinary name: the description rule follows the name
+				ops = append(ops, c20Op{K: "rm", A: c20SelLastCreated, B: rapid.IntRange(0, 15).Draw(t, "name")})
 			}
 			return ops
 		case "groups":
